@@ -34,8 +34,8 @@ def gen_original(g, name, prefix, others):
             acts.append({"k": "raw", "ctx": None, "text": "let me if %s" % g.choice(["counter of framer >= %d" % g.randint(1, 4), "counter of framer <= %d" % g.randint(2, 6),
                                                                                     ".sim.x1 >= %d" % g.randint(0, 2), "counter of framer != %d" % g.randint(1, 4)])})
         if others and i == 0 and g.random() < 0.6:
-            for _ in range(g.choice([1, 1, 2])):       # nested insular clones, sometimes two side by side in one frame
-                acts.append({"k": "clone", "orig": g.choice(others), "as": "mine", "needs": None})
+            for j in range(g.choice([1, 1, 2])):       # nested clones (insular, sometimes named), sometimes two side by side in one frame
+                acts.append({"k": "clone", "orig": g.choice(others), "as": "mine" if g.random() < 0.65 else "kd%d" % j, "needs": None})
         if i < n - 1:
             need = g.choice(["counter of framer >= %d" % g.randint(1, 5), "recurred >= %d" % g.randint(0, 3), ".sim.x0 >= %d" % g.randint(0, 3)])
             acts.append({"k": "raw", "ctx": None, "text": "go next if %s" % need})
@@ -252,7 +252,7 @@ class C12(Check):
                    "whether a razed clone that is 'done' but still entered gets its exit actions is outside this statement (probe razed-while-entered only)",
                    "program B (textual copies as ordinary auxiliaries) is the statement's 'what its original would produce alone'"]
     required_probes = ["insular", "named", "nested", "two-clones-of-one-original", "relative-entry-need", "reared", "razed-all", "razed-first", "razed-last",
-                       "raze-left-others", "raze-spared-non-razeable", "freed-name-taken-again", "dirty-plan", "razed-while-entered", "two-nested-clones-in-one-frame"]
+                       "raze-left-others", "raze-spared-non-razeable", "freed-name-taken-again", "dirty-plan", "razed-while-entered", "two-nested-clones-in-one-frame", "nested-named"]
     quick_runs = 3000
     thorough_runs = 150000
     shrink_fields = []
@@ -285,7 +285,7 @@ class C12(Check):
             out.digest = tr.digest()
             return out
         text = repr(plan)
-        for key, probe in (("'as': 'mine'", "insular"), ("'as': 'nc", "named"), ("'as': 'nr", "named")):
+        for key, probe in (("'as': 'mine'", "insular"), ("'as': 'nc", "named"), ("'as': 'nr", "named"), ("'as': 'kd", "nested-named")):
             if key in text:
                 out.probe(probe)
         if any(a["k"] == "clone" for o in plan["origs"] for f in o["frames"] for a in f["acts"]):
